@@ -13,7 +13,7 @@ from . import build
 from .server import Server
 
 VERIF = build.VERIF
-KNOWN = os.path.join(VERIF, "known_findings.json")
+KNOWN = os.environ.get("NMV_KNOWN") or os.path.join(VERIF, "known_findings.json")
 OUT = os.environ.get("NMV_OUT", VERIF)
 
 
